@@ -78,7 +78,7 @@ RULE = (
     "parameters outside VALUES (constant and per-row), a VALUES element with three bound parameters, "
     "sort_by_parameter_order off, no RETURNING, RETURNING column order, non-positive page sizes, injected "
     "row loss / duplicate / wrong sentinel (guards); insertmanyvalues_max_parameters is also enforced by "
-    "the database (sqlite3 setlimit). quick: above 8 rows 2 (above 20 rows 1) of the 9 style combinations per (n, page) "
+    "the database (sqlite3 setlimit). quick: above 6 rows 2 (above 20 rows 1) of the 9 style combinations per (n, page) "
     "in rotation, paramstyles in rotation; thorough: full product. "
     "ORM bulk insert through session.execute(insert(Entity).returning(..)) with all key-set sequences of "
     "length <= 4 over 3 key sets + random longer ones; upserts over fresh and over existing keys with "
@@ -587,13 +587,13 @@ def gen_cases(rng, tier):
     combos = [(0, 0), (0, 1), (0, 2), (1, 0), (2, 0), (3, 0), (4, 0), (5, 0), (7, 0)]
     ns = list(range(0, 41))
     # 1. the grid: every n x page x style; paramstyle and permutation rotate (thorough: all paramstyles)
-    #    quick: above 8 rows every (n, page) pair still occurs, with 2 (above 20 rows: 1) of the 9 styles in rotation
+    #    quick: above 6 rows every (n, page) pair still occurs, with 2 (above 20 rows: 1) of the 9 styles in rotation
     g = 0
     for n in ns:
         for page in pages:
             for ci, (style, dopt) in enumerate(combos):
                 g += 1
-                if tier != "thorough" and n > 8 and (ci + 2 * n + page) % 9 >= (2 if n <= 20 else 1):
+                if tier != "thorough" and n > 6 and (ci + 2 * n + page) % 9 >= (2 if n <= 20 else 1):
                     continue
                 pss = range(4) if tier == "thorough" else [g % 4]
                 for ps in pss:
@@ -603,6 +603,8 @@ def gen_cases(rng, tier):
     # 2. small-scope exhaustive over the remaining switches (n = 5, page = 2)
     for style, dopt in combos:
         for ps in range(4):
+            if tier != "thorough" and (ps + style + dopt) % 2:
+                continue
             for sbo in (0, 1):
                 for extra in (0, 1):
                     cases.append(make_case(rng, style, dopt=dopt, pstyle=ps, sbo=sbo, extra=extra, page=2, n=5,
@@ -639,6 +641,8 @@ def gen_cases(rng, tier):
     #    client-side sentinel values
     for ps in range(4):
         for style, dopt in ((1, 0), (2, 0), (3, 0), (5, 0), (7, 0), (0, 1)):
+            if tier != "thorough" and (ps + style) % 2:
+                continue
             for fk in (1, 2, 3):
                 n = 6
                 cases.append(make_case(rng, style, dopt=dopt, pstyle=ps, page=4, n=n,
